@@ -13,6 +13,7 @@
      tenc ((pid eid lang x<bytes>) ...) -> (ok x<bytes>) | panic       M_encode_table
      best x<bytes>                   -> err | panic | none | (best i)  M_decode_table_bytes + M_getbest
      install HIGH                    -> ((pid eid lang) ...)           M_installcmap_keys
+     lk4 ((k g) ...) (r ...)         -> (g ...)                       M_lookup4 (Format4.Lookup), r any integer
      getsub P E (r0 ... r255) x<bytes> -> err | panic | (bytes x..) | (map (k g) ...)
                                         M_get_sub with macrune c = r[c mod 256]
 *)
@@ -104,6 +105,9 @@ let () = main_loop (fun c ->
      | Err -> A "err"
      | Panic -> A "panic"
      | OutOfFuel -> A "fuel")
+  | [A "lk4"; m; rs] ->
+    let m = sx_pairs m in
+    L (List.map (fun r -> an (m_lookup4 m (sx_z r))) (lst rs))
   | [A "install"; high] ->
     L (List.map (fun ((p, e), l) -> L [an p; an e; an l]) (m_installcmap_keys (sx_z high)))
   | _ -> failwith "bad case")
